@@ -21,6 +21,7 @@ inductive Err where
   | broken          -- the transport Write failed
   | rejected        -- Write failed with ErrRejected (per-message, connection stays usable)
   | ctx             -- the caller's context ended
+  | marshal         -- the call's parameters could not be encoded (the call never reached the connection)
 deriving DecidableEq, Repr, Inhabited
 
 def Err.closing : Err → Bool
@@ -203,6 +204,7 @@ deriving DecidableEq, Repr, Inhabited
 inductive Label where
   -- environment
   | ecall | enotify | ectx (n : Nat) | eclose | ewait
+  | ecallbad   -- a user starts a call whose params cannot be encoded
   | read (m : RMsg)
   | wret (w : Who) (o : WOut)
   | hasync (r : Nat) | hret (r : Nat) (isErr : Bool)
@@ -292,6 +294,11 @@ def markBroken (s : St) : St :=
 def step0 (s : St) : Label → Option St
   -- ───────────── environment ─────────────
   | .ecall => some { s with calls := s.calls ++ [{}] }
+  -- `Call` with params that `NewCall` cannot marshal (conn.go:318-322): the id is taken from the
+  -- sequence, the AsyncCall is retired with the marshalling error without being registered and
+  -- without reaching C1; `mcp.call`'s Await returns that error at once
+  | .ecallbad => some { s with calls := s.calls ++
+      [{ pc := .fin, ready := some (.err .marshal), result := some (.err .marshal), retires := 1, registered := false }] }
   | .enotify => some { s with unotifs := s.unotifs ++ [{}] }
   | .eclose => some { s with closeCl1 := s.closeCl1 + 1 }
   | .ewait => some { s with waitWaiting := s.waitWaiting + 1 }
